@@ -197,7 +197,7 @@ def g_deferred_expr(r):
               operator.lshift, operator.truediv]
 
     def recipe(depth):
-        k = r.randrange(0, 9 if depth > 0 else 3)
+        k = r.randrange(0, 12 if depth > 0 else 3)
         if k == 0:
             return lambda X, Y, D: X
         if k == 1:
@@ -216,6 +216,27 @@ def g_deferred_expr(r):
         if k == 7:
             a = recipe(depth - 1)
             return lambda X, Y, D: D[a(X, Y, D)]
+        if k == 9:
+            # a constant on either side of a NON-commutative use of a commutative operator (bytes concatenation,
+            # repetition): the reflected methods must put the operands back in source order
+            c = r.choice([b'>', b'', b'ab'])
+            side = r.randrange(3)
+            hi = r.choice([1, 2])
+            if side == 0:
+                return lambda X, Y, D: c + D[0:hi]
+            if side == 1:
+                return lambda X, Y, D: D[0:hi] + c
+            n = r.choice([0, 1, 2])
+            return lambda X, Y, D: n * D[0:hi]
+        if k == 10:
+            # the same unary operator twice in a row (must be applied twice: -(-seq) raises, ~~x is x)
+            a = recipe(depth - 1)
+            u = r.choice([operator.neg, operator.inv])
+            return lambda X, Y, D: u(u(a(X, Y, D)))
+        if k == 11:
+            a = recipe(depth - 1)
+            u = r.choice([operator.neg, operator.inv])
+            return lambda X, Y, D: u(u(D[0:1] if r.random() < 0 else a(X, Y, D)))
         # the selector's condition is rooted in a field, so the selection itself is deferred
         fld = r.randrange(2)
         cmpc = r.choice([0, 1, 2, 3])
